@@ -295,6 +295,10 @@ RULES = [
 ]
 
 
+from . import shared
+RULES = RULES + shared.bundle('C10', ['values', 'stride', 'maxpd', 'density', 'limits', 'unit-sum', 'relative', 'norm'], ['direct_model', 'sasview_model', 'bumps_model', 'weights', 'details'])
+
+
 def run(tier="quick", replay=None):
     return run_check(
         "C10", RULES, tier=tier, replay=replay,
